@@ -39,6 +39,10 @@ struct Stats {
     short_reads: u64,
     eintrs: u64,
     rl_err_propagated: u64,
+    /// histories with an interleaved second task; second tasks actually run inside an Output / Input call
+    nest_hist: u64,
+    nest_fired_w: u64,
+    nest_fired_r: u64,
     checks_ok: [u64; 24],
     lay_written: Vec<u64>,
     lay_read: Vec<u64>,
@@ -67,6 +71,9 @@ impl Stats {
             short_reads: 0,
             eintrs: 0,
             rl_err_propagated: 0,
+            nest_hist: 0,
+            nest_fired_w: 0,
+            nest_fired_r: 0,
             checks_ok: [0; 24],
             lay_written: vec![0; nlay],
             lay_read: vec![0; nlay],
@@ -95,6 +102,9 @@ impl Stats {
         self.short_reads += o.short_reads;
         self.eintrs += o.eintrs;
         self.rl_err_propagated += o.rl_err_propagated;
+        self.nest_hist += o.nest_hist;
+        self.nest_fired_w += o.nest_fired_w;
+        self.nest_fired_r += o.nest_fired_r;
         for i in 0..24 {
             self.checks_ok[i] += o.checks_ok[i];
         }
@@ -268,6 +278,9 @@ fn one_run(world: &World, t: Trace, tier: Tier, known: &[Known], st: &mut Stats)
     if t.input.native_read_byte {
         st.mode_hist[4] += 1;
     }
+    if t.input.nest.is_some() {
+        st.nest_hist += 1;
+    }
     let mut dg = Digest::default();
     let mut nontrivial: u32 = 0;
     let w = match write_phase(&world.table, &t, false) {
@@ -283,6 +296,7 @@ fn one_run(world: &World, t: Trace, tier: Tier, known: &[Known], st: &mut Stats)
     };
     dg.u64(w.digest);
     st.steps += w.steps;
+    st.nest_fired_w += w.nest_fired as u64;
     for i in 0..24 {
         st.checks_ok[i] += w.ok[i] as u64;
     }
@@ -307,6 +321,7 @@ fn one_run(world: &World, t: Trace, tier: Tier, known: &[Known], st: &mut Stats)
         st.short_reads += p.stats.short_reads as u64;
         st.eintrs += p.stats.eintrs as u64;
         st.rl_err_propagated += p.stats.rl_err_propagated as u64;
+        st.nest_fired_r += p.stats.nest_fired as u64;
         for i in 0..24 {
             st.checks_ok[i] += p.ok[i] as u64;
         }
@@ -1047,7 +1062,7 @@ fn cmd_run(world: &World, args: &Args) -> i32 {
         let hit = *bad.lock().unwrap();
         sweep32 = json!({"layouts": lays.len(), "bit_patterns_per_layout": "all 2^32", "patterns_checked": done * (1u64 << 20),
             "complete": hit.is_none() && done == total_chunks, "wall_s": t1.elapsed().as_secs_f64(),
-            "what": "lean loop, no event log: encode_to writes exactly the 4 LE bytes; decode of them returns the bits and consumes all 4; for one pattern in 256 the 3-byte prefix fails"});
+            "what": "lean loop, no event log: encode_to writes exactly the 4 LE bytes; decode of them returns the bits and consumes all 4; all byte views (inherent and Fixed-trait) equal the model bytes and invert, Wrapping bits; for one pattern in 256 the 3-byte prefix fails"});
         if let Some((l, v)) = hit {
             // re-execute as an ordinary history so that the normal oracles, minimiser and replay apply
             let t = Trace { seed: 0, run: v as u64, input: seams::InputMode::plain(), sampled_faults: vec![], serde: vec![],
@@ -1068,10 +1083,94 @@ fn cmd_run(world: &World, args: &Args) -> i32 {
             }
         }
     }
+    // both tiers: structured sweep of the 64- and 128-bit layouts (lean loop): every pattern of the
+    // PRNG-free sub-spaces of gen::structured_pattern through the canonical pair and the byte views
+    let mut sweep_wide = json!(null);
+    if batch.violation.is_none() && args.canary == 0 && args.variant == "main" {
+        let t1 = Instant::now();
+        let lays: Vec<u16> = world.table.iter().enumerate().filter(|(_, o)| o.w >= 64).map(|(i, _)| i as u16).collect();
+        const CH: u64 = 1 << 17;
+        // (layout, first index, last index + 1)
+        let mut work: Vec<(u16, u64, u64)> = Vec::new();
+        for l in &lays {
+            let tot = gen::structured_total(world.table[*l as usize].w);
+            let mut at = 0;
+            while at < tot {
+                work.push((*l, at, (at + CH).min(tot)));
+                at += CH;
+            }
+        }
+        let quick_tier = args.tier == Tier::Quick;
+        let next = AtomicU64::new(0);
+        let done_patterns = AtomicU64::new(0);
+        let done_chunks = AtomicU64::new(0);
+        let bad = std::sync::Mutex::new(None::<(usize, u16, u128)>);
+        let stop = AtomicBool::new(false);
+        std::thread::scope(|sc| {
+            for _ in 0..args.workers {
+                sc.spawn(|| loop {
+                    let c = next.fetch_add(1, Ordering::Relaxed) as usize;
+                    if c >= work.len() || stop.load(Ordering::Relaxed) {
+                        break;
+                    }
+                    let (l, lo, hi) = work[c];
+                    let o = &world.table[l as usize];
+                    let mut hit = None;
+                    let mut n_exec = 0u64;
+                    let a_end = gen::structured_total(o.w) - if o.w == 128 { 48u64.pow(4) } else { 32u64.pow(4) };
+                    for idx in lo..hi {
+                        if quick_tier && idx < a_end && idx % 3 != 2 {
+                            continue; // quick tier: sub-space A with the all-distinct background only
+                        }
+                        n_exec += 1;
+                        let v = gen::structured_pattern(o.w, idx);
+                        let ok = std::panic::catch_unwind(|| (o.lean)(v, idx % 64 == 21)).unwrap_or(false);
+                        if !ok {
+                            hit = Some(v);
+                            break;
+                        }
+                    }
+                    done_patterns.fetch_add(n_exec, Ordering::Relaxed);
+                    done_chunks.fetch_add(1, Ordering::Relaxed);
+                    if let Some(v) = hit {
+                        let mut g = bad.lock().unwrap();
+                        if g.map(|(bc, _, _)| c < bc).unwrap_or(true) {
+                            *g = Some((c, l, v));
+                        }
+                        stop.store(true, Ordering::Relaxed);
+                    }
+                });
+            }
+        });
+        let hit = *bad.lock().unwrap();
+        sweep_wide = json!({"layouts": lays.len(), "widths": [64, 128], "backgrounds_in_sub_space_A": if quick_tier { json!(["all bytes distinct"]) } else { json!(["00", "ff", "all bytes distinct"]) }, "patterns_per_64bit_layout": gen::structured_total(64), "patterns_per_128bit_layout": gen::structured_total(128),
+            "patterns_checked": done_patterns.load(Ordering::Relaxed), "complete": hit.is_none() && done_chunks.load(Ordering::Relaxed) == work.len() as u64, "wall_s": t1.elapsed().as_secs_f64(),
+            "what": "PRNG-free sub-spaces swept completely for every 64- and 128-bit layout, lean loop without event log: (A) every pair of byte positions x all 65536 values of the two bytes x three backgrounds (00, ff, all bytes distinct); (B) every combination of four sub-words (32-bit words for 128-bit layouts, 16-bit for 64-bit ones) from a palette of 48 / 32 boundary and pattern words. Per pattern: encode_to writes exactly the LE bytes, decode returns the bits and consumes them, all byte views (inherent and Fixed-trait) equal the model and invert, Wrapping bits; for one pattern in 64 the width/8-1 byte prefix fails"});
+        if let Some((_, l, v)) = hit {
+            // re-execute as an ordinary history so that the normal oracles, minimiser and replay apply
+            let t = Trace { seed: 0, run: (v as u64) ^ ((v >> 64) as u64), input: seams::InputMode::plain(), sampled_faults: vec![], serde: vec![],
+                records: vec![trace::Record { w_lay: l, r_lay: l, shape: Shape::Bare, vals: vec![v], splits: vec![], writer: trace::Writer::EncodeTo, reader: trace::Reader::Decode }] };
+            let wb = world.table[l as usize].wb();
+            let mut found = None;
+            for f in [Fault::None, Fault::TruncateAt(wb - 1), Fault::TruncateAt(0)] {
+                if let (Some(vi), _, _) = shrink::exec_single(world, &t, &f, false) {
+                    found = Some((f, vi));
+                    break;
+                }
+            }
+            match found {
+                Some((f, vi)) => batch.violation = Some((t.run, t, f, vi)),
+                None => {
+                    eprintln!("harness error: the structured sweep flagged pattern {:#x} of {} but the ordinary oracles accept it", v, world.table[l as usize].name);
+                    return 2;
+                }
+            }
+        }
+    }
     // a batch that hit its wall-clock cap or did not finish is not a basis for "held": the verdict must not
     // depend on how fast this machine happens to be
     let expected_runs = runs + if sweep.is_null() { 0 } else { total };
-    let incomplete = batch.violation.is_none() && (batch.capped || batch.completed < expected_runs || sweep32.get("complete").and_then(|c| c.as_bool()) == Some(false));
+    let incomplete = batch.violation.is_none() && (batch.capped || batch.completed < expected_runs || sweep32.get("complete").and_then(|c| c.as_bool()) == Some(false) || sweep_wide.get("complete").and_then(|c| c.as_bool()) == Some(false));
     let st = &batch.stats;
     let wall = t0.elapsed().as_secs_f64();
 
@@ -1080,9 +1179,15 @@ fn cmd_run(world: &World, args: &Args) -> i32 {
     let mut violations = 0;
     let mut unreproducible = false;
     let mut replay_path = String::new();
-    if let Some((run, t, f, v)) = &batch.violation {
+    let mut pending: Option<(u64, Trace, Fault, Violation)> = batch.violation.clone();
+    let mut serial_research = Value::Null;
+    for attempt in 0..2 {
+        let (run, t, f, v) = match pending.take() {
+            Some(x) => x,
+            None => break,
+        };
         violations = 1;
-        let (mt, mf, mv, tries) = shrink::shrink(world, t, f, v);
+        let (mt, mf, mv, tries) = shrink::shrink(world, &t, &f, &v);
         let _ = std::fs::create_dir_all(&args.replay_dir);
         replay_path = if args.variant == "main" {
             format!("{}/{}-{}-{}.json", args.replay_dir, args.seed, run, mv.check)
@@ -1094,6 +1199,7 @@ fn cmd_run(world: &World, args: &Args) -> i32 {
             "minimised": {"shrink_attempts": tries, "records_before": t.records.len(), "records_after": mt.records.len(),
                            "fault_before": f.to_json(), "fault_after": mf.to_json()},
             "original_detail": v.detail,
+            "found_by": if attempt == 0 { "the seeded batch" } else { "the single-worker re-search after a violation that did not replay" },
             "regenerate_unminimised_with": if t.seed == 0 { "n/a: found by a PRNG-free sweep; the history in this file is explicit and complete".to_string() } else { format!("c10sim gen --seed {} --run {}", args.seed, run) },
         });
         let doc = replay_json(world, &mt, &mf, &mv, info);
@@ -1111,15 +1217,26 @@ fn cmd_run(world: &World, args: &Args) -> i32 {
             Some(true) => {
                 println!("VIOLATION property={} replay={}", PROPERTY, replay_path);
                 exit = 1;
+                unreproducible = false;
             }
             _ => {
                 // Seen in one process, gone in the next: the outcome depends on something the simulator
                 // does not own (other worker threads running at the same time, or what ran earlier on the
-                // same thread). No native replay can be promised; escalate to the interpreter probe, whose
-                // two-thread phase turns a data race on hidden shared state into a reported event.
+                // same thread). First look for a violation the simulator *does* own: the same histories
+                // again on a single worker thread, where only the simulator's own interleaving (the second
+                // task run inside a seam call) can make two operations overlap. If that finds nothing that
+                // replays, escalate to the interpreter probe, whose two-thread phase turns a data race on
+                // hidden shared state into a reported event.
                 eprintln!("note: the minimised replay {} did not reproduce in a fresh process (hidden shared state in the code under test?)", replay_path);
                 unreproducible = true;
                 violations = 0;
+                if attempt == 0 && args.canary == 0 {
+                    let n = runs.min(4000);
+                    let sb = run_batch(world, &|r| generate(world, seed, r), n, 1, args.tier, &known, false, cap);
+                    serial_research = json!({"histories": sb.completed, "workers": 1, "found_a_violation": sb.violation.is_some()});
+                    eprintln!("note: single-worker re-search over {} histories: {}", sb.completed, if sb.violation.is_some() { "found a violation" } else { "nothing" });
+                    pending = sb.violation;
+                }
             }
         }
     }
@@ -1201,7 +1318,11 @@ fn cmd_run(world: &World, args: &Args) -> i32 {
             }
             other => {
                 eprintln!("harness error: variant {} exited with {:?}: {}", name, other, String::from_utf8_lossy(&out.stderr));
-                return 2;
+                if exit != 1 {
+                    return 2;
+                }
+                // a violation that replays has already been reported by this build; it stands
+                eprintln!("note: the violation reported above stands; the {} configuration gave no verdict", name);
             }
         }
     }
@@ -1291,6 +1412,7 @@ fn cmd_run(world: &World, args: &Args) -> i32 {
             "exhaustive": false,
             "exhaustive_value_sweep": sweep,
             "exhaustive_32bit_sweep": sweep32,
+            "structured_sweep_of_the_wide_layouts": sweep_wide,
             "histories": st.histories,
             "distinct_histories": distinct_histories,
             "histories_requested": runs,
@@ -1309,6 +1431,12 @@ fn cmd_run(world: &World, args: &Args) -> i32 {
             "short_reads_delivered": st.short_reads,
             "eintr_delivered": st.eintrs,
             "decodes_that_only_propagated_a_remaining_len_error_tolerated": st.rl_err_propagated,
+            "interleaved_second_task": {
+                "what": "a complete encode + decode (+ one decode cut short) of another value, usually of another layout, run by the simulator while the first operation is suspended inside one seam call (Output::write / push_byte incl. the closure of using_encoded, Input::read / read_byte): cooperative interleaving of two tasks at the points where the library hands control to its caller",
+                "histories_configured": st.nest_hist,
+                "second_tasks_run_inside_an_output_call": st.nest_fired_w,
+                "second_tasks_run_inside_an_input_call": st.nest_fired_r,
+            },
             "max_stream_bytes": st.max_stream,
             "max_records_per_history": st.max_records,
             "coverage_cells": {
@@ -1322,6 +1450,7 @@ fn cmd_run(world: &World, args: &Args) -> i32 {
             "interpreter_probe": ub_probe,
             "native_violation_that_did_not_replay": unreproducible,
             "alarm_path_selftest": alarm_selftest,
+            "single_worker_research_after_a_violation_that_did_not_replay": serial_research,
             "components": {
                 "real_code": ["substrate-fixed derived Encode/Decode/MaxEncodedLen/TypeInfo for FixedI8..FixedU128 (incl. derive-generated decode_into)", "substrate-fixed from_bits/to_bits/{from,to}_{le,be,ne}_bytes (inherent and Fixed-trait)", "substrate-fixed Wrapping::{from_bits,to_bits}", "substrate-fixed serde Serialize/Deserialize impls (Fixed*, Wrapping)", "parity-scale-codec 3.7.5 integer/array/Vec/Option/tuple/Box codecs, Compact<u32> length prefix, EncodeAppend, DecodeLength, DecodeAll, DecodeLimit, Joiner, KeyedVec, IoReader", "std::io::Read::read_exact", "scale-info registry", "serde_json, serde_cbor"],
                 "stubs_owned_by_the_simulator": ["SimOutput (codec::Output)", "SimInput (codec::Input)", "SimRead (std::io::Read under IoReader)", "TokSer / TokDe (serde Serializer / Deserializer, SeqAccess, MapAccess)", "the medium (a byte vector)", "reference model: bits >> 8i little-endian bytes + shape framing", "metadata-driven foreign decoder", "hand-written LE reader"],
@@ -1337,6 +1466,7 @@ fn cmd_run(world: &World, args: &Args) -> i32 {
                 "D2": "c: exactly the record's bytes are consumed (later records stay aligned); trailing bytes left unread / rejected by decode_all",
                 "D3": "d: decoding fewer bytes fails (every strict prefix; EOF and I/O error); never Ok, never a panic",
                 "D4": "a, c, e: a flipped stored bit flips exactly that value bit; corrupted framing behaves as for the integer twin",
+                "R1": "a, c, d for every caller: the codec is a function of the value / the bytes only — a second encode/decode task run while the first is suspended inside a seam call neither disturbs it nor is disturbed (no hidden state shared between calls)",
                 "D5": "c, d under delivery modes: short reads, EINTR, remaining_len None/Err, native read_byte are absorbed",
                 "D6": "bounded recovery: after a failed decode the intact record decodes on the next attempt",
                 "B1": "e: from_bits/to_bits and le/be/ne views are mutually inverse; inherent == Fixed-trait; Wrapping<F>",
